@@ -24,6 +24,13 @@ Ties (every run):
             lineage (independent Python rendering, cross-checked against the Coq
             add_all / accumulated / lineages); on disciplined programs the real solver
             of every running path vs the pure model run along its lineage.
+  X-engine  small bytecode programs (conditional jumps, vm.assertTrue / assertFalse /
+            assertEq / vm.assume on symbolic calldata) through the real SEVM.run, the real
+            Path methods wrapped by a recorder of every constraint handed to a path or to
+            the fork that created it: every yielded state must have nothing pending and its
+            dumped queries must be equivalent to the handed constraints.
+Scripts also use "hash twins" (distinct simplified conditions with the same z3 ast hash,
+searched at start-up): only structurally equal conditions are duplicates.
 """
 import os
 import re
@@ -45,7 +52,7 @@ ASSUMPTIONS = [
     "Python object semantics as modelled: dict / set / defaultdict mutation in place, .copy() = new container with the same values, deepcopy = new container with new sets (the copy modes are read off sevm.py by T-pathcopy and cross-checked by object identity on real Path objects)",
     "the extracted model and driver are faithful to the Coq definitions (extraction is trusted)",
 ]
-PARTIAL = "paths are built directly on sevm.Path objects with generated z3 conditions (L2 of DESIGN 4.2); no end-to-end `python -m halmos` run on fabricated build artifacts is part of this check"
+PARTIAL = "paths are built directly on sevm.Path objects with generated z3 conditions (L2 of DESIGN 4.2), plus SEVM.run on small hand-assembled programs (single frame, two calldata words) with the Path methods wrapped by a lineage recorder; no end-to-end `python -m halmos` run on fabricated build artifacts is part of this check; the fuel of the slice worklist loop (slice_fuel) is not proved sufficient (running out is the model's error value, excluded by the `= Some` hypotheses and never observed in the correspondence run)"
 
 WIDTH_POOL = ["256", "264", "512", "8", "1", "64", "1024", "0", "007", "257"]
 REAL_WIDTHS = {"bvmul": [256, 512], "bvudiv": [256], "bvurem": [256, 264, 512], "bvsdiv": [256], "bvsrem": [256], "exp": [256]}
@@ -191,6 +198,9 @@ def gen_term(r, depth):
 
 def gen_bool(r, depth, prev=()):
     k = r.random()
+    if TWINS and k > 0.93:
+        t1, t2 = r.choice(TWINS)  # two different constraints with the same ast hash
+        return t2 if t1 in prev else t1
     if prev and k < 0.12:
         return r.choice(prev)  # exact duplicate
     if prev and k < 0.2:
@@ -933,6 +943,185 @@ def hscript_kinds(script, obs):
     return kinds
 
 
+
+# ----------------------------------------------------------------- hash twins (coarser-than-equality duplicate tests)
+
+TWINS = []  # pairs of script conditions: structurally different after simplify, same z3 ast hash
+
+
+def find_hash_twins(limit=3000):
+    """Pairs of DISTINCT simplified conditions with the same z3 ast hash (z3's 32-bit structural
+    hash is weak: a few pairs exist among `a op k`, k < 3000).  A path that is handed both must
+    keep both: only structurally equal conditions are duplicates."""
+    E = make_env()
+    z3 = E.z3
+    out = []
+    for op in ("ne", "eq", "ugt", "ult"):
+        for v in ("a", "b"):
+            seen = {}
+            for k in range(1, limit):
+                term = [op, ["var", v], ["const", k]]
+                sc = z3.simplify(E.mkb(term))
+                h = sc.hash()
+                if h in seen and not sc.eq(seen[h][1]):
+                    out.append([seen[h][0], term])
+                seen.setdefault(h, (term, sc))
+            if len(out) >= 12:
+                return out
+    return out
+
+
+# ----------------------------------------------------------------- X-engine: paths as SEVM.run yields them
+
+THIS_ADDR = 0xAAAA0001
+ENGINE_ENDS = ["STOP", "REVERT", "INVALID"]
+VM_ASSERTS = {"assertTrue": 0x0C9FD581, "assertFalse": 0xA5982885, "assertEq": 0x98296C54, "assume": 0x4C63E562}
+
+
+def gen_engine_program(r):
+    """A small bytecode program over two symbolic calldata words: conditional jumps to
+    STOP / REVERT / INVALID, vm.assertTrue / assertFalse / assertEq / vm.assume on symbolic
+    conditions (the assert handlers fork a failing state that halts at once), then STOP."""
+    stmts = []
+    for _ in range(r.randint(1, 4)):
+        cmp_ = [r.choice(["LT", "GT", "EQ"]), r.choice([0, 32]), r.choice([0, 1, 7, 10, 255, 1000, (1 << 255), (1 << 256) - 1, r.randrange(1 << 16)])]
+        k = r.random()
+        if k < 0.35:
+            stmts.append(["jumpi", cmp_, r.choice(ENGINE_ENDS)])
+        elif k < 0.85:
+            stmts.append(["vm", r.choice(["assertTrue", "assertFalse", "assertEq"]), cmp_])
+        else:
+            stmts.append(["vm", "assume", cmp_])
+    return stmts
+
+
+ENGINE_CORPUS = [
+    [["vm", "assertTrue", ["LT", 0, 10]]],
+    [["vm", "assertEq", ["EQ", 32, 7]], ["jumpi", ["GT", 0, 255], "INVALID"], ["vm", "assertFalse", ["EQ", 0, 1000]]],
+    [["vm", "assume", ["GT", 0, 1]], ["vm", "assertTrue", ["LT", 0, 10]], ["vm", "assertTrue", ["LT", 32, 10]]],
+]
+
+
+def assemble_engine_program(stmts):
+    from harness.asm import assemble
+    from halmos.cheatcodes import hevm_cheat_code
+
+    hevm = int(hevm_cheat_code.address.as_z3().as_long())
+    items, ends = [], []
+
+    def cond(c):  # (calldataload(off) OP K) on the stack
+        return [("push", c[2]), ("push", c[1]), "CALLDATALOAD", c[0]]
+
+    def call(argsize):
+        return ["PUSH0", "PUSH0", ("push", argsize), "PUSH0", "PUSH0", ("pushn", 20, hevm), "GAS", "CALL", "POP"]
+
+    for n, st in enumerate(stmts):
+        if st[0] == "jumpi":
+            items += cond(st[1]) + [("ref", f"end{n}"), "JUMPI"]
+            ends.append((f"end{n}", st[2]))
+        else:
+            items += [("pushn", 4, VM_ASSERTS[st[1]]), ("push", 0xE0), "SHL", "PUSH0", "MSTORE"]
+            if st[1] == "assertEq":
+                items += [("push", st[2][1]), "CALLDATALOAD", ("push", 4), "MSTORE", ("push", st[2][2]), ("push", 36), "MSTORE"] + call(0x44)
+            else:
+                items += cond(st[2]) + [("push", 4), "MSTORE"] + call(0x24)
+    items.append("STOP")
+    for name, end in ends:
+        items.append(("label", name))
+        items += ["PUSH0", "PUSH0", "REVERT"] if end == "REVERT" else [end]
+    return assemble(items)
+
+
+class LineageRecorder:
+    """Records, on the real Path objects and through the real methods, every constraint handed
+    to a path or to the fork that created it (attribute _c11_handed).  The wrapped methods
+    are the originals; nothing of their behaviour changes."""
+
+    def __enter__(self):
+        from halmos.sevm import Path
+
+        self.Path = Path
+        self.orig = {n: getattr(Path, n) for n in ("append", "branch", "extend_path")}
+        o = self.orig
+
+        def append(p, cond, branching=False):
+            p.__dict__.setdefault("_c11_handed", []).append(cond)
+            return o["append"](p, cond, branching=branching)
+
+        def branch(p, cond):
+            child = o["branch"](p, cond)
+            child._c11_handed = list(p.__dict__.get("_c11_handed", [])) + [cond]
+            return child
+
+        def extend_path(p, parent):
+            p._c11_handed = list(parent.__dict__.get("_c11_handed", []))
+            return o["extend_path"](p, parent)
+
+        Path.append, Path.branch, Path.extend_path = append, branch, extend_path
+        return self
+
+    def __exit__(self, *a):
+        for n, f in self.orig.items():
+            setattr(self.Path, n, f)
+
+
+def impl_engine(stmts):
+    """Runs the program through the real SEVM.run; for every yielded state: what is pending
+    on its path, and its dumped queries vs every constraint handed to that path's lineage."""
+    import contextlib
+    import io
+    from pathlib import Path as P
+    from types import SimpleNamespace as NS
+
+    import z3
+
+    import halmos.solve as S
+    from halmos.__main__ import mk_solver
+    from halmos.calldata import FunctionInfo
+    from halmos.mapper import BuildOut
+    from halmos.sevm import SEVM
+    from harness import engine
+
+    make_env()  # spare context / malloc settings
+    if BuildOut()._build_out_map is None:
+        BuildOut().set_build_out({})
+    obs = {"error": None, "paths": []}
+    scn = {"accounts": {THIS_ADDR: {"code": assemble_engine_program(stmts)}}, "this": THIS_ADDR,
+           "calldata": [("s", "p_x_uint256_00", 32), ("s", "p_y_uint256_01", 32)]}
+    td = tempfile.mkdtemp(prefix="c11e_")
+    chk = z3.Solver()
+    chk.set("timeout", 2000)
+    strip = lambda t: t.replace("(set-option :produce-unsat-cores true)\n", "")  # noqa: E731
+    buf = io.StringIO()
+    try:
+        with LineageRecorder(), contextlib.redirect_stdout(buf), contextlib.redirect_stderr(buf):
+            opts = engine.make_options(scn.get("options"))
+            sevm = SEVM(opts, FunctionInfo("T", "test", "test()", "f8a8fd6d"))
+            ex0 = engine.build_exec(scn, sevm, mk_solver(opts))
+            for n, ex in enumerate(sevm.run(ex0)):
+                path = ex.path
+                handed = list(path.__dict__.get("_c11_handed", []))
+                o = {"outcome": engine.outcome_kind(ex), "pending": [str(c)[:80] for c in path.pending],
+                     "n_conditions": len(path.conditions), "n_handed": len(handed), "q": {}}
+                for cs in (False, True):
+                    q = path.to_smt2(NS(cache_solver=cs))
+                    ctx = S.PathContext(args=NS(verbose=0, cache_solver=cs), path_id=10 * n + int(cs),
+                                        solving_ctx=NS(dump_dir=P(td)), query=q)
+                    S.dump(ctx)
+                    try:
+                        parsed = list(z3.parse_smt2_string(strip(ctx.dump_file.read_text())))
+                        o["q"][str(cs)] = equiv_check(z3, chk, parsed, handed, q.assertions if cs else [])
+                    except z3.Z3Exception as e:
+                        o["q"][str(cs)] = [["unparsable", str(e)[:200]]]
+                obs["paths"].append(o)
+    except Exception as e:  # noqa: BLE001
+        obs["error"] = f"{type(e).__name__}: {str(e)[:200]}"
+    for f in os.listdir(td):
+        os.unlink(os.path.join(td, f))
+    os.rmdir(td)
+    return obs
+
+
 # ----------------------------------------------------------------- run
 
 def txt(s):
@@ -1050,9 +1239,17 @@ def run(rep, tier):
                      {"eval": [op, n, x, y], "implementation": v, "model": o})
 
     mark('refined_values')
+    # ---- conditions that a duplicate test coarser than structural equality would confuse
+    TWINS[:] = find_hash_twins()
+    rep.coverage["hash_twin_pairs"] = len(TWINS)
+    twin_scripts, twin_hscripts = [], []
+    for t1, t2 in TWINS[:4]:
+        twin_scripts.append([["append", t1, False], ["append", t2, True], ["slice", ["a"]], ["extend"], ["append", t1, False]])
+        twin_hscripts.append([["append", 0, t1, False], ["extend", 0], ["append", 1, t2, True], ["branch", 1, t1], ["activate", 2], ["append", 2, t2, False]])
+    mark('twins')
     # ---- X-path
     nscripts = 220 if tier == "quick" else 6000
-    scripts = list(CORPUS) + [gen_script(r, tier) for _ in range(nscripts)]
+    scripts = list(CORPUS) + twin_scripts + [gen_script(r, tier) for _ in range(nscripts)]
     if tier == "quick":
         impl = [impl_script(sc) for sc in scripts]
     else:
@@ -1162,7 +1359,7 @@ def run(rep, tier):
 
     # ---- X-heap: programs over several Path objects
     nh = 220 if tier == "quick" else 12000
-    hscripts = list(HCORPUS) + [gen_hscript(r, tier) if k % 2 else gen_dfs_hscript(r, tier) for k in range(nh)]
+    hscripts = list(HCORPUS) + twin_hscripts + [gen_hscript(r, tier) if k % 2 else gen_dfs_hscript(r, tier) for k in range(nh)]
     if tier == "quick":
         himpl = [impl_hscript(sc) for sc in hscripts]
     else:
@@ -1258,6 +1455,46 @@ def run(rep, tier):
                 if pm["ids"] != po["q"][cs]["ids"]:
                     fail("broken-tie", f"to_smt2 ids of Path object {j} (cache_solver={cs}): implementation {po['q'][cs]['ids']} vs model {pm['ids']} on {script}", dict(case, object=j))
     mark("hcompare")
+
+    # ---- X-engine: the paths SEVM.run yields (forks made by JUMPI and by the vm.assert* handlers)
+    ne = 40 if tier == "quick" else 1500
+    eprogs = list(ENGINE_CORPUS) + [gen_engine_program(r) for _ in range(ne)]
+    if tier == "quick":
+        eimpl = [impl_engine(pg) for pg in eprogs]
+    else:
+        import multiprocessing as mp
+
+        with mp.get_context("spawn").Pool(8) as pool:
+            eimpl = pool.map(impl_engine, eprogs, chunksize=25)
+    nyield = 0
+    for pg, o in zip(eprogs, eimpl):
+        case = {"engine_program": pg}
+        kinds = sorted({st[1] if st[0] == "vm" else "jumpi" for st in pg})
+        for kd in kinds:
+            rep.count("engine_statement", kd)
+        forks = sum(1 for p_ in (o.get("paths") or []) if p_["outcome"] == "fail")
+        rep.case(case, nontrivial=forks > 0)
+        if o["error"]:
+            fail("broken-tie", f"SEVM.run raised {o['error']} on engine program {pg}", case)
+            continue
+        rep.count("engine_paths_per_program", len(o["paths"]))
+        for n, p_ in enumerate(o["paths"]):
+            nyield += 1
+            rep.count("engine_outcome", p_["outcome"].split(":")[0])
+            if p_["pending"]:
+                fail("failing-input",
+                     f"SEVM.run yielded path {n} ({p_['outcome']}) with conditions still pending {p_['pending']}: they are constraints of the path (handed {p_['n_handed']}, in conditions {p_['n_conditions']}) that to_smt2 does not serialise, on engine program {pg}",
+                     dict(case, path=n, pending=p_["pending"]), sig={"what": "yielded-pending"})
+            for cs, res in p_["q"].items():
+                for kind, detail in res:
+                    if kind == "undecided":
+                        undecided += 1
+                        continue
+                    fail("failing-input",
+                         f"the dumped query (cache_solver={cs}) of yielded path {n} ({p_['outcome']}) is not equivalent to the constraints handed to that path [{kind}]: {detail} on engine program {pg}",
+                         dict(case, path=n, cache_solver=cs, kind=kind, detail=detail), sig={"what": "engine-" + kind})
+    mark("engine")
+    rep.coverage["engine_paths_observed"] = nyield
     rep.coverage["path_objects_observed"] = nobjects
     rep.coverage["object_programs_validated_against_impl"] = len(hscripts) if hres is not None else 0
     rep.coverage["undecided_equivalence_checks"] = undecided
@@ -1267,14 +1504,21 @@ def run(rep, tier):
         trusted_base=common.TRUSTED_BASE_COMMON + ["z3 (python bindings) as the reference parser / evaluator of the dumped SMT-LIB text in the correspondence run"],
         assumptions=ASSUMPTIONS,
         partial=PARTIAL,
-        rule="three case families: (1) refine_line: declaration lines f_evm_<op>_<N> for ops inside / outside the alternations, widths 256/264/512 and others incl. malformed (mismatching sorts, leading zeros, non-digits), other query lines; non-trivial = an f_evm_ declaration; (2) eval: the real refined define-fun applied by z3 to boundary operands (0, 1, 2^(N-1), 2^N-1, ...) and random ones at widths 256/264/512 and small widths; non-trivial = zero divisor or a negative (msb set) operand; (3) script: random lives of a sevm.Path (append / branch+activate with the parent continuing / slice / extend_path into a Path with a fresh solver) over generated z3 conditions with f_evm_ abstractions, arrays, duplicates and trivially true conditions; non-trivial = a condition was deduplicated or dropped as true, the solver holds a strict subset of conditions (sliced parent), refinement changed the query, or a branch happened; (4) hscript: programs over several Path objects (handle = creation index; append / branch / activate / slice / extend on any live object; every other program generated along the exploration discipline: one running path per solver, LIFO activation, finished states sliced and extended once or twice) plus a directed corpus (two transactions from one unsliced / sliced state, both sides of a fork running on, a frontier state extended three times, out-of-order activation); non-trivial = several objects created from one state, an object created from a state after a sibling (or the state) was appended to, or a fork; distinct by hash of the case",
+        rule="three case families: (1) refine_line: declaration lines f_evm_<op>_<N> for ops inside / outside the alternations, widths 256/264/512 and others incl. malformed (mismatching sorts, leading zeros, non-digits), other query lines; non-trivial = an f_evm_ declaration; (2) eval: the real refined define-fun applied by z3 to boundary operands (0, 1, 2^(N-1), 2^N-1, ...) and random ones at widths 256/264/512 and small widths; non-trivial = zero divisor or a negative (msb set) operand; (3) script: random lives of a sevm.Path (append / branch+activate with the parent continuing / slice / extend_path into a Path with a fresh solver) over generated z3 conditions with f_evm_ abstractions, arrays, duplicates and trivially true conditions; non-trivial = a condition was deduplicated or dropped as true, the solver holds a strict subset of conditions (sliced parent), refinement changed the query, or a branch happened; (4) hscript: programs over several Path objects (handle = creation index; append / branch / activate / slice / extend on any live object; every other program generated along the exploration discipline: one running path per solver, LIFO activation, finished states sliced and extended once or twice) plus a directed corpus (two transactions from one unsliced / sliced state, both sides of a fork running on, a frontier state extended three times, out-of-order activation); non-trivial = several objects created from one state, an object created from a state after a sibling (or the state) was appended to, or a fork; (5) engine_program: 1-4 statements over two symbolic calldata words (JUMPI to STOP / REVERT / INVALID, vm.assertTrue / assertFalse / assertEq, vm.assume) assembled to bytecode and run by the real SEVM.run; non-trivial = a failing-assertion fork was yielded; scripts of (3) and (4) also draw hash twins (pairs of distinct simplified conditions with equal z3 ast hash found by a start-up search over `a op k`, k < 3000); distinct by hash of the case",
     )
 
 
 def replay(rep, body):
     for f in body.get("failures", []):
         case = f.get("case") or {}
-        if "hscript" in case:
+        if "engine_program" in case:
+            o = impl_engine(case["engine_program"])
+            print("engine program:", case["engine_program"], "bytecode:", assemble_engine_program(case["engine_program"]).hex())
+            print("error:", o["error"])
+            for n, p_ in enumerate(o["paths"]):
+                print(f" path {n}: {p_}")
+        elif "hscript" in case:
+            TWINS[:] = []
             o = impl_hscript(case["hscript"])
             print("program over Path objects:", case["hscript"])
             print("error:", o.get("error"), " constraints of every object's lineage:", o.get("spec_conds"))
